@@ -3,7 +3,7 @@ Optical System Configuration Data module.
 """
 from enum import Enum
 from io import BytesIO
-from typing import BinaryIO, Iterator, List, Union
+from typing import BinaryIO, Iterator, List, Optional, Union
 
 import numpy as np
 
@@ -123,7 +123,7 @@ class OpticalSetupBlock(Block):
     def __init__(
         self,
         format: OpticalSetupBlockFormat = OpticalSetupBlockFormat.basicFormat,
-        channels: List[OpticalChannelData] = [],
+        channels: Optional[List[OpticalChannelData]] = None,
         **kwargs,
     ) -> None:
         """A data block containing information about the physical setup of
@@ -132,7 +132,7 @@ class OpticalSetupBlock(Block):
 
         super().__init__(**kwargs)
         self.format = format
-        self.channels = channels
+        self.channels = channels if channels is not None else []
 
     @staticmethod
     def _build(stream, format) -> "OpticalSetupBlock":
